@@ -341,6 +341,7 @@ def run_paths(
     loop_bound: int = 1,
     for_iter: Optional[Callable[[Node, Evaluator], Any]] = None,
     limit: int = 200000,
+    final_fn: Optional[Callable[[Evaluator], List[Any]]] = None,
 ) -> Tuple[Set[Tuple[Any, ...]], List[str]]:
     """Outcomes (tuple of effect labels + ('ret', value) / ('raise', text)) of all
     paths that are feasible under `atoms`; plus tests left undecided.  Depth-first
@@ -359,6 +360,9 @@ def run_paths(
         if steps > limit:
             raise AnalysisError(f'path explosion in {getattr(cfg.fn, "name", "?")} (> {limit} steps)')
         if node is cfg.exit or node is cfg.raise_exit or (stop is not None and not first and stop(node)):
+            if final_fn is not None:
+                # what the locals hold where the path ends
+                eff = eff + tuple(final_fn(Evaluator(prog, module, atoms, loc)))
             outcomes.add(eff)
             continue
         evl = Evaluator(prog, module, atoms, loc)
